@@ -100,8 +100,12 @@ def typed_ok(param, raw, result, program=None):
             return None
         if isinstance(raw, int):
             return None if type(result) is int and result == raw else "int-does-not-stay-int"
-        if isinstance(raw, float):
+        if isinstance(raw, float) and type(raw) is float:
             return None if type(result) is float and (result == raw or (raw != raw and result != result)) else "decimal-does-not-stay-decimal"
+        import numbers
+        if isinstance(raw, numbers.Number):
+            # NumPy scalars, fractions: a number already; whatever type comes back, it is the same number
+            return None if isinstance(result, numbers.Number) and not isinstance(result, bool) and result == raw else "number-changes-value"
         if isinstance(result, bool) or not isinstance(result, (int, float)):
             return "number-not-a-number"
         if isinstance(raw, str):
@@ -115,6 +119,8 @@ def typed_ok(param, raw, result, program=None):
     if isinstance(param, P.BooleanParameter):
         if type(result) is not bool:
             return "boolean-not-bool"
+        if isinstance(raw, float) and not isinstance(raw, bool) and raw not in (0.0, 1.0):
+            return "decimal-accepted-as-boolean"
         if isinstance(raw, bool):
             return None if result is raw else "boolean-value-changed"
         if isinstance(raw, int) and raw in (0, 1):
@@ -236,7 +242,8 @@ def pool(program, d, with_arrays=False):
     from mpilot.arguments import Argument, ListArgument
     A, F, U = program.commands["A"], program.commands["F"], program.commands["U"]
     vals = [
-        0, 1, 2, -1, 12, 2 ** 70, 0.0, 1.0, 1.5, -0.0, 1e300, 5e-324, float("nan"), True, False,
+        0, 1, 2, -1, 12, 2 ** 70, 0.0, 1.0, 1.5, -0.0, 1e300, 5e-324, float("nan"), True, False, 0.5, 2.5, -1.5,
+        numpy.float32(1.5), numpy.float16(0.5), numpy.float64(2.5), numpy.int64(3), numpy.int8(1), numpy.float32(0.75), [numpy.float32(1.5), 2], __import__("fractions").Fraction(3, 2),
         "12", " 12 ", "+7", "-3", "007", "1.5", "1.", ".5", "1e5", "1.5E-3", "-0.0", "abc", "", " ", "1,5", "12abc", "0x10",
         "true", "TRUE", "True", "false", "False", "0", "1", "2", "yes", "no", "t",
         "Float", "Integer", "Positive Float", "Positive Integer", "Fuzzy", "float", "Complex",
